@@ -201,6 +201,11 @@ func (w *world) opInsert(t *inst, op Op) {
 	w.faultMark()
 	arg := val(append([]byte{}, v...))
 	pbuf := util.Path(p)
+	var preSnap snap
+	muts0, fired0 := 0, 0
+	if w.fdb != nil && t.id == 0 {
+		preSnap, muts0, fired0 = w.snapshot(t, false), w.fdb.muts, w.fdb.fired
+	}
 	if w.guard(fmt.Sprintf("Insert(%q)", p), func() { root, err = t.mpt.Insert(pbuf, arg) }) {
 		return
 	}
@@ -217,6 +222,16 @@ func (w *world) opInsert(t *inst, op Op) {
 			arg.Buffer[i] ^= 0x33
 		}
 		w.stats.Inc("fault.scribble-on-inserted-value")
+	}
+	if err != nil && w.fdb != nil && t.id == 0 && !t.degraded && w.fdb.fired == fired0+1 && w.fdb.lastKind == "dbput" && w.fdb.muts == muts0 && len(v) > 0 {
+		// the very first store write of this Insert was refused: nothing has been written or deleted yet, and the
+		// trie must not remember anything of the attempt (root, pending changes, dead list as before)
+		w.stats.Inc("probe.insert-refused-at-its-first-store-write")
+		after := w.snapshot(t, false)
+		if preSnap.root != after.root || preSnap.changes != after.changes || preSnap.deletes != after.deletes {
+			w.fail("c01.failed-insert", "trace-of-an-insert-refused-at-its-first-write", "Insert(%q) failed at its first store write (nothing was written), yet the trie's root / pending changes / dead list differ from before", p)
+			return
+		}
 	}
 	if err != nil && (w.faultHit() || t.degraded) {
 		t.degraded = true
